@@ -5,14 +5,16 @@
 (*   ReloadSeesWholeCommit : the content a reload exposes is exactly the content of ONE commit  *)
 (*                           between the last one completed when the reload started and the one *)
 (*                           in progress when it returned - never a mixture, never uncommitted  *)
-(*   ReloadMonotone        : successive reloads of one reader never move back                   *)
+(*   ReloadMonotone        : successive reloads of one reader never move back: what a reader     *)
+(*                           publishes is never older than what one of its completed reloads    *)
+(*                           (by any thread sharing the IndexReader) has already exposed         *)
 (*   SearcherImmutable     : a held searcher gives the same answers whenever it is re-read      *)
 (*   OpenNeverFails        : a reload never fails (no event accepts `ok = false`)               *)
 EXTENDS CoreTrace
 
 VARIABLES
   commits,   \* Seq of the contents of all commits of this run (commits[1] = the empty index)
-  rlo,       \* reader -> number of completed commits when its current reload started
+  rlo,       \* <<reader, thread>> -> number of completed commits when that thread's current reload started
   rlast,     \* reader -> index of the commit its last reload exposed
   heldObs    \* <<reader, generation>> -> the observation made when that searcher was loaded
 
@@ -22,23 +24,25 @@ allvars == <<vars, rvars>>
 Min(S) == CHOOSE x \in S : \A y \in S : x <= y
 ContentAt(k) == IF k <= Len(commits) THEN commits[k] ELSE pend
 Shape(obs) == [segs |-> obs.segs, byterm |-> obs.byterm, n |-> obs.n, count_all |-> obs.count_all]
+\* threads sharing one IndexReader log their name in `t`; a reader used by one thread only does not
+RK == <<Ev.r, IF "t" \in DOMAIN Ev THEN Ev.t ELSE "-">>
 
 RReaderNew ==
   /\ Ev.ev = "reader_new" /\ Ev.ok
-  /\ rlo' = (Ev.r :> Len(commits)) @@ rlo
+  /\ rlo' = (RK :> Len(commits)) @@ rlo
   /\ rlast' = (Ev.r :> 1) @@ rlast
   /\ UNCHANGED <<commits, heldObs>>
 
 RReloadStart ==
   /\ Ev.ev = "reload_start"
-  /\ rlo' = (Ev.r :> Len(commits)) @@ rlo
+  /\ rlo' = (RK :> Len(commits)) @@ rlo
   /\ UNCHANGED <<commits, rlast, heldObs>>
 
 RReload ==
   /\ Ev.ev = "reload" /\ Ev.ok            \* OpenNeverFails: a failed reload is not accepted
   /\ ObsConsistent(Ev.obs)
   /\ LET hi == Len(commits) + (IF calling THEN 1 ELSE 0)
-         lower == IF rlast[Ev.r] > rlo[Ev.r] THEN rlast[Ev.r] ELSE rlo[Ev.r]
+         lower == IF rlast[Ev.r] > rlo[RK] THEN rlast[Ev.r] ELSE rlo[RK]
          K == {k \in lower..hi : ObsDocs(Ev.obs) = ContentAt(k)}
      IN IF kf THEN UNCHANGED rlast
         ELSE K # {} /\ rlast' = (Ev.r :> Min(K)) @@ rlast
@@ -52,11 +56,20 @@ RHeld ==
   /\ Shape(Ev.obs) = heldObs[<<Ev.r, Ev.gen>>]        \* SearcherImmutable
   /\ UNCHANGED rvars
 
+\* what the reader publishes, read without a reload of one's own
+RPeek ==
+  /\ Ev.ev = "peek"
+  /\ ObsConsistent(Ev.obs)
+  /\ LET hi == Len(commits) + (IF calling THEN 1 ELSE 0)
+         K == {k \in rlast[Ev.r]..hi : ObsDocs(Ev.obs) = ContentAt(k)}
+     IN kf \/ K # {}
+  /\ UNCHANGED rvars
+
 RSchedule == Ev.ev = "schedule" /\ UNCHANGED rvars
 
 ReaderStep ==
   /\ l <= Len(Rec) /\ l' = l + 1
-  /\ (RReaderNew \/ RReloadStart \/ RReload \/ RHeld \/ RSchedule)
+  /\ (RReaderNew \/ RReloadStart \/ RReload \/ RHeld \/ RPeek \/ RSchedule)
   /\ UNCHANGED <<pend, commd, lo, metaop, payload, wopen, wCreated, dirty, sorted, kf, calling>>
 
 WriterStep ==
